@@ -21,7 +21,7 @@ ASSUMPTIONS = ["CPython float/Fraction arithmetic", "nvmon.ref exact reference m
 FLOORS = {'quick': {'single': 1500, 'list': 300, 'ders0': 300, 'grid_point': 1000, 'grid_shape': 150, 'meval': 2000,
                     'corner': 300},
           'thorough': {'single': 15000, 'grid_point': 10000, 'meval': 20000}}
-MANDATORY_TAGS = ['ss:delta>2/3', 'container-grid', 'pdim3', 'rational', 'u:knot_full', 'u:knot', 'u:start', 'u:end', 'kv:unclamped', 'kv:range',
+MANDATORY_TAGS = ['large', 'ss:delta>2/3', 'container-grid', 'pdim3', 'rational', 'u:knot_full', 'u:knot', 'u:start', 'u:end', 'kv:unclamped', 'kv:range',
                   'ss:distinct', 'ss:one-direction', 'route:list', 'span:binary', 'dim4']
 TECHNIQUE = ("runtime monitoring: exact-arithmetic post-condition on every evaluators.*.evaluate() call (M-eval hook) and on "
              "each public evaluation entry point, under a class-enumerating seeded workload")
@@ -66,6 +66,8 @@ def gen(rng, tier, shard, nshards):
                 kw.pop('kvcls', None)
         kw.setdefault('span', rng.choice(['linear', 'binary', None]))
         pd = kw.pop('pdim')
+        if not (i < len(forced) and shard == 0) and 'kvcls' not in kw and rng.random() < 0.07:
+            kw['large'] = True         # degree up to 10 / 40 control points; surfaces and volumes with one long, high-degree direction
         sd = G.rand_shape(rng, pd, **kw)
         if pd > 1 and rng.random() < 0.25:
             sd['route'] = 'list'       # built through the list-form setters degree = [...], knotvector = [...]
@@ -94,6 +96,8 @@ def check(case, ctx):
     tol = 1e-9 * sc
     interior = any(len(kv) > 2 * (p + 1) or kv[0] != kv[p] for kv, p in zip(sd['kvs'], sd['degrees']))
     ctx.nontriv(interior or (sd['rational'] and len(set(sd.get('weights', [1]))) > 1))
+    if sd.get('large'):
+        ctx.tag('large')
     ctx.tag('pdim%d' % pdim, 'rational' if sd['rational'] else 'nonrational', 'dim%d' % len(sd['ctrlpts'][0]),
             'span:%s' % sd.get('span', 'default'), 'route:%s' % sd.get('route', 'per-direction'))
     for c in sd['kvcls']:
